@@ -1,15 +1,14 @@
 #!/bin/bash
 # seed_regression.sh [pattern] : apply every kept seeded change to /repo in turn, run its property's quick check, undo.
+# CAUGHT = at least one VIOLATION line with a concrete failing input; CAUGHT-NOINPUT = only broken proof/tie lines.
 cd /verif
 for d in seeded/${1:-*}/; do
   n=$(basename $d); p=${n:0:3}
   if [ -n "$(git -C /repo status --porcelain)" ]; then echo "REPO-DIRTY before $n"; exit 2; fi
   if ! git -C /repo apply /verif/$d/patch.diff 2>/dev/null; then echo "$n NOAPPLY"; continue; fi
-  out=$(./check $p --tier quick 2>&1 | grep -E "^OK|VIOLATION" | head -1 | cut -c1-110)
+  out=$(./check $p --tier quick 2>&1 | grep -E "^OK|VIOLATION")
   git -C /repo checkout -- .
-  case "$out" in
-    VIOLATION*no-failing-input-found*) echo "$n CAUGHT-NOINPUT";;
-    VIOLATION*) echo "$n CAUGHT";;
-    *) echo "$n MISSED $out";;
-  esac
+  if echo "$out" | grep "VIOLATION" | grep -qv "no-failing-input-found"; then echo "$n CAUGHT"
+  elif echo "$out" | grep -q "VIOLATION"; then echo "$n CAUGHT-NOINPUT"
+  else echo "$n MISSED $(echo "$out" | head -1 | cut -c1-110)"; fi
 done
